@@ -6,6 +6,7 @@ require (
 	github.com/MinterTeam/mhub2/module v0.0.0
 	github.com/cosmos/cosmos-sdk v0.45.4
 	github.com/ethereum/go-ethereum v1.10.25
+	github.com/gogo/protobuf v1.3.3
 	github.com/tendermint/tendermint v0.34.19
 	github.com/tendermint/tm-db v0.6.6
 )
@@ -30,7 +31,6 @@ require (
 	github.com/go-kit/log v0.2.0 // indirect
 	github.com/go-logfmt/logfmt v0.5.1 // indirect
 	github.com/godbus/dbus v0.0.0-20190726142602-4481cbc300e2 // indirect
-	github.com/gogo/protobuf v1.3.3 // indirect
 	github.com/golang/protobuf v1.5.2 // indirect
 	github.com/golang/snappy v0.0.4 // indirect
 	github.com/google/btree v1.0.0 // indirect
